@@ -35,7 +35,7 @@ CHECKS.update({
         "the data-structure invariant (bitmap length = number of blocks, computed without wrap-around; no bit above it) is established by the constructors and preserved by every operation, so it holds after every history by induction; "
         "contract-level lemmas show that distinct block indices denote disjoint blocks (IPv4: distinct addresses; IPv6: /page blocks with different bases, for all 129 allocation sizes). "
         "Lock obligations show every bitmap access happens under the allocator mutex and no exit leaves it held. The allocators.Allocator interface contract relied on by the plugins (abstract set of outstanding blocks: a successful Allocate returns a block that was not outstanding and adds exactly it) is checked against the real (*IPv4Allocator).Allocate / NewIPv4Allocator and (*Allocator).Allocate / NewBitmapAllocator as refinement obligations (abstraction functions over the bitmaps; for IPv6 with the geometry lemma v6_block_of_index, proved separately for all 129 page sizes)."),
-  note=ALLOC_NOTE + " Free is not checked against the interface contract (which states no effect for it; the plugins never call it).", technique="contract-based deductive verification: data-structure invariant + whole-view postconditions + geometry lemmas, VCs over go/ssa discharged by SMT", ref="DESIGN.md section 7 (C04-C07)"),
+  note=ALLOC_NOTE + " Free is checked against the interface contract too (IPv4 pools: succeeds iff outstanding, the view loses that block and no other; both pools: adds nothing, a failed Free changes nothing); which block a prefix-pool Free releases is pinned by the concrete contract only.", technique="contract-based deductive verification: data-structure invariant + whole-view postconditions + geometry lemmas, VCs over go/ssa discharged by SMT", ref="DESIGN.md section 7 (C04-C07)"),
  "C05": dict(
   text=("Deductive proof of the postconditions transcribed from the statement: a successful allocation is a block of the pool (IPv4: /32 between start and end inclusive; IPv6: 16-byte base, inside the pool, aligned to the allocation length, "
         "mask length = max(allocation length, length of a 16-byte canonical hint mask), other hints count as none); Allocate fails iff every block is outstanding, then returns ErrNoAddrAvail and changes nothing; the constructors "
